@@ -88,7 +88,43 @@ def disturbances():
             if tree is not None:
                 quiet(tree.evaluate, {"x": -2, "y": 0.5})
 
-    return [("rule questions about coefficients beyond 64 bits", huge_coefficients),
+    def renders():
+        from mathy_core import expressions as E
+        for t in ("4x + 2", "-(x + 2) * 3"):
+            tree = quiet(ExpressionParser().parse, t)
+            if tree is not None:
+                quiet(lambda: tree.terminal_text)
+        half = E.AddExpression(E.ConstantExpression(1))          # a node that cannot be printed
+        quiet(lambda: half.terminal_text)
+        quiet(lambda: E.PowerExpression(None, E.VariableExpression("x")).terminal_text)
+        quiet(lambda: E.VariableExpression(None).terminal_text)
+
+    def edit_public_tables():
+        from mathy_core import util as U
+        p1 = ExpressionParser()
+        fns = getattr(p1.tokenizer, "functions", None)
+        if isinstance(fns, dict):
+            saved = dict(fns)
+            fns.clear()                      # this parser shall know no functions
+            quiet(p1.parse, "sgn(x)")
+            fns.update({"abs": saved.get("sgn")})
+            quiet(p1.parse, "abs(x)")
+        for n in list(range(1, 40)) + [49, 121, 1018081]:
+            d = quiet(U.factor, n)
+            if isinstance(d, dict):
+                d.clear()                    # the caller owns what it was handed
+        for a, b in ((7, 3), (4, 8), (6, 9), (9, 15), (12, 18)):
+            f = quiet(U.factor_add_terms_ex, U.TermEx(a, "x", None), U.TermEx(b, "x", None))
+            if f:
+                quiet(f.all_left.clear)
+                quiet(f.all_right.clear)
+        toks = quiet(ExpressionParser().tokenize, "4x + 2")
+        if isinstance(toks, list):
+            del toks[:]
+
+    return [("colour renders, two of them failing", renders),
+            ("edits of objects handed out earlier (function table of another parser, factor tables, token lists)", edit_public_tables),
+            ("rule questions about coefficients beyond 64 bits", huge_coefficients),
             ("rule questions about 1200 coefficient pairs", many_coefficient_pairs),
             ("2 200 failing evaluations of subtrees", failing_evaluations),
             ("400 failing parses", failing_parses),
@@ -131,6 +167,31 @@ def parse_battery():
     return out
 
 
+def printed_results_battery():
+    """the printed form of rewrite results (trees that carry 'changed' marks) and what it parses back to"""
+    from mathy_core.parser import ExpressionParser
+
+    from .. import sig as SG
+    from . import rewrite as RW
+
+    out = []
+    RW.reset_configs()
+    for t in ["4x + 2x", "2 + 4x", "(2 + 3) * x", "x * x^2", "7 - 3", "x / -y", "2x = 4 + 6", "4 + 8", "7x + 3x", "2 * sgn(x) + 2 * 3", "sgn(x) * sgn(x)"]:
+        tree = ExpressionParser().parse(t)
+        for cname, rule in RW.configs():
+            for i, n in enumerate(RW.inorder(tree)):
+                try:
+                    if not rule.can_apply_to(n):
+                        continue
+                    res, _ = RW.step(tree, rule, i)
+                    root = RW.get_root(res)
+                    text = str(root)
+                    out.append((t, cname, i, text, str(root.clone()), SG.sig(ExpressionParser().parse(text))))
+                except Exception as e:  # noqa
+                    out.append((t, cname, i, "raise", type(e).__name__))
+    return out
+
+
 def token_battery():
     from mathy_core.tokenizer import Tokenizer
 
@@ -151,6 +212,13 @@ def clone_battery():
     from . import rewrite as RW
 
     out = []
+    # a tree that carries 'changed' marks from a rule prints like its clone (which carries none)
+    marked = ExpressionParser().parse("2 + 4x").clone()
+    try:
+        RW.config("CS+").apply_to(marked)
+        out.append(("marked", str(marked), str(marked.clone())))
+    except Exception as e:  # noqa
+        out.append(("marked", "raise", type(e).__name__))
     for t in ["4x + 2", "-(x + 2) * 3", "x = 2y^2", "sgn(x)^2 + 5!", "(a + b) * (a + b)"]:
         tree = ExpressionParser().parse(t)
         out.append((t, "clone", SG.sig(tree.clone())))
